@@ -756,5 +756,93 @@ theorem filterBlock_simInv {c : Ctx} {g' : Store} {b : Block} {conf : List TxId}
     obtain ⟨recs, h0, hg⟩ := M_bind_ok hg
     rw [filterTxs_sim hSub hng hns hfind hown _ _ _ _ _ h0]
     exact tail recs (filterTxs_recOK hrel _ _ _ _ _ (fun _ hm => by cases hm) h0) _ _ hg
+/-- SIMULATION: if the follower's `filterBlock` succeeds on the ghost store, it succeeds on the real store
+    (= ghost minus some records of the wallet being removed) with the same confirmed ids, and the result is
+    again "ghost minus the same records" -/
+theorem filterBlock_sim {addrs : List Addr} {ready : List Wid} {c : Ctx} {g s g' : Store} {b : Block} {conf : List TxId}
+    (hSub : Sub addrs g s) (hng : KeysNodup g.credits) (hns : KeysNodup s.credits)
+    (hF : Fresh ⟨b.height, b.id⟩ g) (hFs : AMap.get s.blocks b.height = none) (hC : CoinsOK addrs ready g)
+    (hfind : ∀ id, existCreditFromTx g id = true → (c.node.fetchTx id).isSome = true)
+    (hown : ∀ (id : TxId) (pt : Tx) (idx : Nat) (o : Out) (w' : Wid) (ch : Bool), existCreditFromTx g id = true →
+      existCreditFromTx s id = false → c.node.fetchTx id = some pt → pt.outs[idx]? = some o → o.cls ≠ .raw →
+      AMap.get c.own o.addr = some (w', ch) → ready.contains w' = false)
+    (hrel : ∀ a w' ch, AMap.get c.own a = some (w', ch) → ready.contains w' = true → addrs.contains a = false)
+    (hg : filterBlock c g ready b = .ok (g', conf)) :
+    ∃ s', filterBlock c s ready b = .ok (s', conf) ∧ Sub addrs g' s' ∧ NewEq ⟨b.height, b.id⟩ g' s' ∧
+      KeysNodup s'.credits ∧ KeysNodup g'.credits ∧ CoinsOK addrs ready g' ∧
+      (∀ k, k.2 ≠ ⟨b.height, b.id⟩ → AMap.get s'.txrecs k = AMap.get s.txrecs k) ∧
+      (∀ h, h ≠ b.height → AMap.get s'.blocks h = AMap.get s.blocks h) ∧
+      (∀ k, k.blk ≠ ⟨b.height, b.id⟩ → AMap.get s'.debits k = AMap.get s.debits k) ∧
+      (∀ k, k.blk ≠ ⟨b.height, b.id⟩ → AMap.get s'.credits k = AMap.get s.credits k ∨
+        (∃ c0, AMap.get s.credits k = some c0 ∧ AMap.get g.credits k = some c0 ∧ addrs.contains c0.sh = false ∧
+          AMap.get s'.credits k = AMap.get g'.credits k)) ∧
+      (∀ k cr, AMap.get g.credits k = some cr → addrs.contains cr.sh = true → AMap.get g'.credits k = some cr) ∧
+      (∀ k cr, AMap.get g'.credits k = some cr → addrs.contains cr.sh = true → AMap.get g.credits k = some cr) ∧
+      (∀ k, k.2 ≠ ⟨b.height, b.id⟩ → AMap.get g'.txrecs k = AMap.get g.txrecs k) ∧
+      (∀ h, h ≠ b.height → AMap.get g'.blocks h = AMap.get g.blocks h) ∧
+      (∀ k, k.blk ≠ ⟨b.height, b.id⟩ → AMap.get g'.debits k = AMap.get g.debits k) := by
+  obtain ⟨s', hs, hI⟩ := filterBlock_simInv hSub hng hns hF hFs hC hfind hown hrel hg
+  refine ⟨s', hs,
+    ⟨hI.unspent, hI.game, hI.balance, hI.sync, hI.syncedTo, hI.status, hI.cred.sub, hI.debS, hI.txS, hI.adr⟩,
+    ⟨fun id => hI.tx.new (id, _) rfl, hI.blk.new _ rfl, fun id i => hI.cred.new ⟨id, _, i⟩ rfl,
+      fun id i => hI.deb.new ⟨id, _, i⟩ rfl⟩,
+    cn_filterBlock hns hs, cn_filterBlock hng hg, hI.coins, hI.tx.frame, hI.blk.frame, hI.deb.frame, ?_, ?_, ?_,
+    hI.tx.gframe, hI.blk.gframe, hI.deb.gframe⟩
+  · intro k hk
+    rcases hI.cred.old k hk with ⟨_, e⟩ | ⟨c0, _, a1, a2, a3, a4, _, _⟩
+    · exact Or.inl e
+    · exact Or.inr ⟨c0, a1, a2, a3, a4⟩
+  · intro k cr hk hsh
+    by_cases hb : k.blk = ⟨b.height, b.id⟩
+    · have : AMap.get g.credits k = none := by cases k; cases hb; exact hF.credits _ _
+      rw [this] at hk; cases hk
+    · rcases hI.cred.old k hb with ⟨e, _⟩ | ⟨c0, _, _, a2, a3, _, _, _⟩
+      · rw [e]; exact hk
+      · rw [hk] at a2; cases a2; rw [hsh] at a3; cases a3
+  · intro k cr hk hsh
+    by_cases hb : k.blk = ⟨b.height, b.id⟩
+    · rw [hI.cred.newc k cr hb hk] at hsh; cases hsh
+    · rcases hI.cred.old k hb with ⟨e, _⟩ | ⟨c0, c1, _, _, a3, _, a5, a6⟩
+      · rw [← e]; exact hk
+      · rw [hk] at a5; cases a5; rw [a6, a3] at hsh; cases hsh
+
+/-- `filterBlock` writes tx records / the block record / debits only under the block's own keys, and never
+    touches a credit of the removed wallet: the ghost half of `filterBlock_sim` alone (take `s := g`) -/
+theorem filterBlock_frame {addrs : List Addr} {ready : List Wid} {c : Ctx} {g g' : Store} {b : Block} {conf : List TxId}
+    (hng : KeysNodup g.credits) (hF : Fresh ⟨b.height, b.id⟩ g) (hC : CoinsOK addrs ready g)
+    (hfind : ∀ id, existCreditFromTx g id = true → (c.node.fetchTx id).isSome = true)
+    (hrel : ∀ a w' ch, AMap.get c.own a = some (w', ch) → ready.contains w' = true → addrs.contains a = false)
+    (hg : filterBlock c g ready b = .ok (g', conf)) :
+    (∀ k, k.2 ≠ ⟨b.height, b.id⟩ → AMap.get g'.txrecs k = AMap.get g.txrecs k) ∧
+    (∀ h, h ≠ b.height → AMap.get g'.blocks h = AMap.get g.blocks h) ∧
+    (∀ k, k.blk ≠ ⟨b.height, b.id⟩ → AMap.get g'.debits k = AMap.get g.debits k) := by
+  obtain ⟨_, _, hI⟩ := filterBlock_simInv (sub_refl addrs g) hng hng hF hF.blocks hC hfind
+    (fun _ _ _ _ _ _ h1 h2 => by rw [h1] at h2; cases h2) hrel hg
+  exact ⟨hI.tx.gframe, hI.blk.gframe, hI.deb.gframe⟩
+
+-- ------------------------------------------------------------------ an unconfirmed transaction
+
+/-- `recvTx` changes none of the mined buckets: `Sub`, `Fresh`, `CoinsOK`, `KeysNodup credits` survive it -/
+theorem recvTx_sim_mined (c : Ctx) (s : Store) (v : Vol) (t : Tx) : MinedEq s (recvTx c s v t).1 := by
+  have h := MW.Lemmas.PendHist.recvTx_mined c s v t
+  simp only [MW.Lemmas.LedgerPending.minedOf, Prod.mk.injEq] at h
+  obtain ⟨h1, h2, h3, h4, h5, h6, h7, h8, h9, h10, h11⟩ := h
+  exact ⟨h1, h2, h3, h4, h5, h6, h7, h8, h9, h10, h11⟩
+
+theorem sub_recvTx {addrs : List Addr} {g s : Store} (h : Sub addrs g s) (c c' : Ctx) (v v' : Vol) (t t' : Tx) :
+    Sub addrs (recvTx c g v t).1 (recvTx c' s v' t').1 := by
+  have hg := recvTx_sim_mined c g v t
+  have hs := recvTx_sim_mined c' s v' t'
+  constructor
+  · rw [hs.unspent, hg.unspent]; exact h.unspent
+  · rw [hs.game, hg.game]; exact h.game
+  · rw [hs.balance, hg.balance]; exact h.balance
+  · rw [hs.sync, hg.sync]; exact h.sync
+  · rw [hs.syncedTo, hg.syncedTo]; exact h.syncedTo
+  · rw [hs.status, hg.status]; exact h.status
+  · rw [hs.credits, hg.credits]; exact h.credits
+  · rw [hs.debits, hg.debits]; exact h.debits
+  · rw [hs.txrecs, hg.txrecs]; exact h.txrecs
+  · rw [hs.addrs, hg.addrs]; exact h.addrs
 
 end MW.Lemmas.RemoveSim
